@@ -16,6 +16,7 @@ ap.add_argument('--checks')
 ap.add_argument('--tier', default='quick')
 ap.add_argument('--src', default='/tmp/wtout')
 ap.add_argument('--skip-confirm', action='store_true')
+ap.add_argument('--as', dest='as_k', help='store under seeded/<PROP>-<as_k> instead of <k>')
 a = ap.parse_args()
 P, K = a.prop, a.k
 src = os.path.join(a.src, P)
@@ -23,7 +24,7 @@ patch = os.path.join(src, 'patch%s.diff' % K)
 demo = os.path.join(src, 'demo%s.py' % K)
 meta_in = os.path.join(src, 'meta%s.json' % K)
 checks = (a.checks or P).split(',')
-out = '/verif/seeded/%s-%s' % (P, K)
+out = '/verif/seeded/%s-%s' % (P, a.as_k or K)
 
 
 def sh(cmd, cwd=None, env=None, timeout=3600):
@@ -33,7 +34,7 @@ def sh(cmd, cwd=None, env=None, timeout=3600):
     return r.returncode, r.stdout.decode('utf8', 'replace')
 
 
-res = {'property': P, 'k': K}
+res = {'property': P, 'k': a.as_k or K}
 if os.path.exists(os.path.join(out, 'meta.json')):
     res.update(json.load(open(os.path.join(out, 'meta.json'))))
 if os.path.exists(meta_in):
